@@ -355,7 +355,11 @@ def ceval_type(t, r, ffi, lines, expect, ctxs, fails, tags, samples, given=None)
                         fails.append(common.Failure("oracle", f"C02:{kind}-address", f"{fn}{kw} on {s[:200]} (value {repr(d)[:200]}): C returns buffer offset {caddr}, the Python accessor reports {want}", c2))
                 elif kind == "get":
                     dt = T.scalars()[leaf[1]]._dtype
-                    cb = np.array([res], dtype=dt).tobytes()
+                    try:
+                        cb = np.array([res], dtype=dt).tobytes()
+                    except (OverflowError, ValueError, TypeError):
+                        # the C getter returned a number the element's type cannot hold (a getter declared with another C type)
+                        cb = b""
                     # the model gives the address; the value is whatever the image holds there
                     lines.append(line)
                     expect.append(None)
